@@ -38,6 +38,7 @@ def run(ctx):
     if not ok:
         return
     role_field = entry_rules(ctx, f, entry, cfg)
+    slot_stores(ctx, f, cfg)
     adds(ctx, f, role_field, cfg)
     exit_rules(ctx, f, exit_, role_field, cfg)
     build_rules(ctx, f, build, cfg)
@@ -204,7 +205,13 @@ def entry_rules(ctx, f, b, cfg):
     stat_scc = b.scc_of(ps)
     its = _iter_info(f, b, stat_scc)
     if its:
-        cls = make_classifier([("iter", ["call:Iterator::next"], [])])
+        base_cls = make_classifier([("iter", ["call:Iterator::next"], [])])
+
+        def cls(atoms, op=None):
+            # `match ctx.result().block_err() { Some(e) => blocked, None => pass }` is an equivalent way to test the verdict
+            if "discr" in atoms and any_atom(atoms, "call:TokenResult::block_err") and any_atom(atoms, "call:EntryContext::result") and not any_atom(atoms, "call:Iterator::next"):
+                return "verdict.block_err"
+            return base_cls(atoms, op)
 
         def oname(t, atoms):
             if callee_is(t, "TokenResult::is_pass") and any_atom(atoms, "call:EntryContext::result"):
@@ -232,6 +239,9 @@ def entry_rules(ctx, f, b, cfg):
         def expected(asg):
             if asg["disc"].get("iter") != 1:
                 return None
+            be = asg["disc"].get("verdict.block_err")
+            if be is not None:
+                return "pass=0,blocked=1" if be == 1 else ("pass=1,blocked=0" if be == 0 else None)
             ip = asg["opaque"].get("verdict.is_pass")
             ib = asg["opaque"].get("verdict.is_blocked")
             if ip is None or ib is None:
@@ -248,6 +258,26 @@ def entry_rules(ctx, f, b, cfg):
                      "per stat slot and entry: verdict pass -> exactly on_entry_pass; verdict blocked -> exactly on_entry_blocked", not mism and ncon >= 2, cfg)
         if mism or ncon < 2:
             ctx.violation("C13.one-notification", "C13.one-notification|table", "a statistic slot does not get exactly one pass-or-blocked notification: %s" % (mism[:1] or "verdict test not found"), b.loc(ps), config=cfg)
+        # the verdict consulted per slot must not be a value that the loop itself consumes or changes: either it is re-read from the
+        # context inside the loop, or the local carrying it is never mutably borrowed / reassigned inside the loop
+        reread = any(x in stat_scc for x, t in b.calls() if callee_is(t, "EntryContext::result"))
+        mutated = []
+        if not reread:
+            carriers = set()
+            for x in stat_scc:
+                t = b.term(x)
+                if t and t["k"] == "switch":
+                    carriers |= {int(a[4:]) for a in sl.of_operand(t["op"]) if a.startswith("lid:")}
+            for x in stat_scc:
+                for s_ in b.blocks[x]["stmts"]:
+                    if s_["k"] == "assign" and s_["rv"]["k"] == "ref" and s_["rv"].get("mut") and s_["rv"]["pl"]["l"] in carriers:
+                        mutated.append(b.loc(x))
+                    if s_["k"] == "assign" and not s_["lhs"]["p"] and s_["lhs"]["l"] in carriers:
+                        mutated.append(b.loc(x))
+        oks = reread or not mutated
+        ctx.instance("C13.one-notification/stable-verdict", b.path, {"verdict_reread_in_loop": reread, "carrier_mutated_in_loop": mutated}, "every slot sees the same verdict", oks, cfg)
+        if not oks:
+            ctx.violation("C13.one-notification", "C13.one-notification|verdict-consumed-in-loop", "the verdict handed to the statistic slots is held in a local that the loop itself mutates (e.g. Option::take): later slots see a different verdict", b.loc(ps), config=cfg)
         # the error handed to on_entry_blocked is the stored verdict's
         a3 = sl.of_operand(b.term(bl)["args"][2]) if len(b.term(bl)["args"]) > 2 else set()
         oke = any_atom(a3, "call:TokenResult::block_err") and any_atom(a3, "call:EntryContext::result")
@@ -407,3 +437,35 @@ def build_rules(ctx, f, b, cfg):
     if mism or ncon < 2:
         ctx.violation("C13.build", "C13.build|table", "EntryBuilder::build does not map Blocked to Err-after-exit and everything else to Ok: %s" % (mism[:1] or "match on the chain's result not found"),
                       b.loc(), config=cfg)
+
+
+def slot_stores(ctx, f, cfg):
+    """The library's own check slots may overwrite the context's verdict only with a Blocked result: the chain notifies the statistic
+    slots by testing is_pass / is_blocked on that verdict, so a stored Wait (or anything else) yields an entry that is admitted but
+    recorded neither as passed nor as blocked (and later decrements in-flight counts it never raised)."""
+    enum = f.adts.get("core::base::result::TokenResult")
+    names = [v["name"] for v in enum["variants"]] if enum else []
+    n = 0
+    for b in f.impl_methods("RuleCheckSlot", "check"):
+        sl = Slicer(f, b)
+        for bb, t in b.calls():
+            if not callee_is(t, "EntryContext::set_result"):
+                continue
+            n += 1
+            a = sl.of_operand(t["args"][1])
+            constructed = any(x.startswith("call:") and "TokenResult::new_blocked" in x for x in a) and not any(x.startswith("call:") and x.endswith(("new_should_wait", "new_pass")) for x in a)
+            arm = None
+            for d in b.dominators()[bb]:
+                tt = b.term(d)
+                if tt and tt["k"] == "switch":
+                    ad = sl.of_operand(tt["op"])
+                    if "discr" in ad and ({x for x in a if x.startswith("lid:")} & {x for x in ad if x.startswith("lid:")}):
+                        for v, tg in tt["targets"]:
+                            if b.dominates(tg, bb) and v < len(names):
+                                arm = names[v]
+            ok = constructed or arm == "Blocked"
+            ctx.instance("C13.verdict/slot-stores", b.path, {"constructed_blocked": constructed, "match_arm": arm}, "set_result only with a Blocked result", ok, cfg)
+            if not ok:
+                ctx.violation("C13.verdict", "C13.verdict|slot-stores|%s|%s" % (b.impl_self.replace("core::", "", 1), arm or "unknown"),
+                              "%s stores a %s verdict in the context: the entry is admitted but no statistic slot is told pass or blocked" % (b.impl_self, arm or "non-Blocked"), b.loc(bb), config=cfg)
+    ctx.floor("C13.verdict", "set_result sites in the library's check slots", n, 4)
